@@ -42,6 +42,7 @@ Definition ID_IF_MATCH := id_of [73;102;45;77;97;116;99;104]%nat.
 Definition ID_ETAG := id_of [69;84;97;103]%nat.
 Definition ID_VARY := id_of [86;97;114;121]%nat.
 Definition ID_LAST_MODIFIED := id_of [76;97;115;116;45;77;111;100;105;102;105;101;100]%nat.
+Definition ID_DATE := id_of [68;97;116;101]%nat.
 
 Definition vals (id : N) (hs : list hdr) : list bytes := map h_value (filter (fun h => hdr_id h =? id) hs).
 Definition has_id (id : N) (hs : list hdr) : bool := existsb (fun h => hdr_id h =? id) hs.   (* CBIT_TEST(mask, id) *)
@@ -207,18 +208,23 @@ Inductive reval_reply :=
 
 Section Revalidation.
 Variable parse_date : bytes -> Z.
+(* HttpReply::olderThan: !them->date || !date => false; else date < them->date  (date = header.getTime(DATE)) *)
+Definition older_than (mine theirs : list hdr) : bool :=
+  let d := get_time parse_date ID_DATE mine in
+  let t := get_time parse_date ID_DATE theirs in
+  if (t =? 0)%Z || (d =? 0)%Z then false else (d <? t)%Z.
 (* r: the client's request; old: the stale entry; status/fresh: the origin's reply; ts_after: the entry's timestamp
-   after timestampsSet(); older: new_rep.olderThan(old reply); fail_on_err: flags.failOnValidationError.
+   after timestampsSet(); fail_on_err: flags.failOnValidationError.
    Returns what the client gets and the header the cache holds for the URL afterwards. *)
 Definition handle_ims_reply (r : creq) (old : centry) (status : N) (fresh : list hdr) (ts_after : Z)
-           (older fail_on_err : bool) : reval_reply * list hdr :=
+           (fail_on_err : bool) : reval_reply * list hdr :=
   if status =? 304 then
     let merged := update_on_not_modified (en_hdrs old) fresh in
     let e_after := {| en_status := en_status old; en_hdrs := merged; en_timestamp := ts_after |} in
     if ims_flag parse_date r && negb (modified_since parse_date e_after (rq_ims parse_date r))
     then (RForward304, merged) else (ROld, merged)
   else if (0 <? status) && (status <? 500) then
-    if older then (ROld, en_hdrs old) else (RNew, fresh)
+    if older_than fresh (en_hdrs old) then (ROld, en_hdrs old) else (RNew, fresh)
   else if fail_on_err then (RNew, en_hdrs old) else (ROld, en_hdrs old).
 End Revalidation.
 
